@@ -223,6 +223,34 @@ def large_case(item):
                     break
             if bad:
                 break
+        # the same table with a cluster file (clusters of up to four mutations): "the same whatever the order of the rows" is
+        # judged bit for bit - a cluster's grid is a floating-point sum over its members, whose order must not follow the file
+        if not res["problems"]:
+            cf = os.path.join(d, "clusters.tsv")
+            with open(cf, "w") as fh:
+                fh.write("mutation_id\tcluster_id\n" + "".join("%s\t%d\n" % (m, 3 + i // 4) for i, m in enumerate(sorted(muts))))
+            first = None
+            for perm in orders:
+                with open(f, "w") as fh:
+                    fh.write(sep.join(hdr) + "\n" + "\n".join(sep.join(r) for r in perm) + "\n")
+                res["loads"] += 1
+                try:
+                    data, smp = load(f, cf)
+                except Exception as e:
+                    res["problems"].append("clustered load raised %s: %s" % (type(e).__name__, str(e)[:100]))
+                    break
+                cur = (tuple(dp.name for dp in data), tuple(dp.idx for dp in data), tuple(smp), [np.array(dp.value, copy=True) for dp in data],
+                       [float(np.sum(dp.outlier_marginal_prob)) if hasattr(dp, "outlier_marginal_prob") else 0.0 for dp in data])
+                if first is None:
+                    first = cur
+                    continue
+                if cur[:3] != first[:3]:
+                    res["problems"].append("clustered result depends on the row order: %r vs %r" % (first[:3], cur[:3]))
+                    break
+                diffs = [float(np.max(np.abs(a - b))) for a, b in zip(first[3], cur[3]) if a.shape == b.shape]
+                if any(a.shape != b.shape or not np.array_equal(a, b) for a, b in zip(first[3], cur[3])) or first[4] != cur[4]:
+                    res["problems"].append("clustered likelihood grids depend on the row order (bit-exact comparison; largest difference %.3e)" % (max(diffs) if diffs else -1))
+                    break
     finally:
         shutil.rmtree(d, ignore_errors=True)
     return res
